@@ -173,6 +173,18 @@ def rule_attr(chk):
                     for alt in F.pat_alternatives(arm["pat"]):
                         if alt.get("k") == "Const" and isinstance(alt.get("v"), str) and alt.get("ty", "").endswith("str"):
                             accepted[alt["v"]] = (b["name"], lower)
+            # a name tested with == / != against a string literal is a name the parser knows as well
+            for c in F.walk(b["thir"]):
+                if not isinstance(c, dict):
+                    continue
+                is_cmp = (c.get("k") == "Binary" and c.get("op") in ("Eq", "Ne")) or (c.get("k") == "Call" and short(c.get("fn") or "") in ("eq", "ne"))
+                if not is_cmp:
+                    continue
+                ops = c["args"] if c.get("k") == "Call" else [c["l"], c["r"]]
+                for o in ops:
+                    l = F.lit(F.strip(o))
+                    if l and l[0] == "str" and l[1] and l[1].replace("_", "").isalnum():
+                        accepted.setdefault(l[1], (b["name"], lower))
     chk.floor("C04.floor/accepted-attributes", len(accepted), 10, "attribute names accepted by the typer")
     emitted = {}
     for gname in ("generate_function_attribute", "generate_statement_attribute"):
